@@ -433,7 +433,7 @@ package fiber
 //@ macro anyNormalForm(r, pp) = (normalForm(true, true, r, pp) || normalForm(true, false, r, pp) || normalForm(false, true, r, pp) || normalForm(false, false, r, pp))
 //@ macro sameOrTrimmed(f, p) = (p == f || (len(f) > 1 && trimmedOf(f, p)))
 //@ macro rpmPath0(p) = ite(len(p) == 0, "/", p)
-//@ macro rpmDecoded(p) = ite(called(@fasthttp.AppendUnquotedArg), unquoted(rpmPath0(p)), rpmPath0(p))
+//@ macro rpmDecoded(p) = ite(called(unescapePathBytes), unquoted(rpmPath0(p)), rpmPath0(p))
 //@ func RoutePatternMatch
 //@   props C03 C02
 //@   assumes special-character-tables: startCharsTable() && endCharsTable() && delimiterCharsTable()
